@@ -20,6 +20,11 @@ RULE = ("one case = a seeded history of 3-9 connections between one client "
         "SNI, version). A harness-side history model derives may_resume / "
         "must_not_resume / must_complete per attempt; observed (client."
         "resumed, server.resumed, outcome, parameters, client identity) is "
+        "Also: closes with closeSocket=False, fatal ends of resumed "
+        "connections, abbreviated handshakes with a wrong client "
+        "Finished (the session ID is invalidated), a passed-over ticket "
+        "next to an external PSK, the session-ID ring filled past its "
+        "capacity before the age limit passes.   "
         "compared. distinct_nontrivial = distinct (mechanism, version, "
         "invalidation reason, observed outcome) cells.")
 ASSUMPTIONS = [
